@@ -810,7 +810,7 @@ theorem homogAlignCopy_eq (rec : Src.Rec) (h : Heap) (self : Src.SelfObj) :
         | .error e => .error e
       | none => .error .attr := by
   unfold homogAlignCopy
-  simp only [Src.getAttr, Src.withDict, Src.blank]
+  simp only [Src.getAttr, Src.selfAttr, Src.withDict, Src.blank, Src.newOf]
   cases hl : self.fs.lookup "_h_matrix" with
   | none => rfl
   | some m =>
